@@ -599,6 +599,7 @@ static void gen_segments(vh_rng *r, struct sb *b, int nseg, const char *extra)
 	int i;
 	for (i = 0; i < nseg; i++) { sb_addc(b, '/'); gen_chars(r, b, 5, extra); }
 }
+static int g_badport;
 /* conformant URI-reference; fills c with its components (malloc'd) */
 static void gen_uri(vh_rng *r, struct sb *out, struct comps *c, int *literal, int unix_shape)
 {
@@ -634,7 +635,12 @@ static void gen_uri(vh_rng *r, struct sb *out, struct comps *c, int *literal, in
 			}
 			c->f[F_HOST] = xdupn(t.s, t.n);
 			sb_add(out, t.s);
-			if (vh_chance(r, 1, 2)) {
+			if (g_badport) {
+				/* boundary and malformed ports (components are then not the generator's business) */
+				static const char *const BADPORTS[] = { "65536", "65537", "99999", "100000", "4294967296", "4294967376", "2147483648", "99999999999999999999",
+					"-1", "+80", " 80", "8 0", "0x50", "80a", "65535", "065536", "655350" };
+				sb_addc(out, ':'); sb_add(out, VH_PICK(r, BADPORTS));
+			} else if (vh_chance(r, 1, 2)) {
 				const char *p = VH_PICK(r, PORTPOOL);
 				sb_addc(out, ':'); sb_add(out, p);
 				if (*p) c->port = (int)strtol(p, NULL, 10);
@@ -735,6 +741,7 @@ static void case_rand(vh_rng *r)
 {
 	struct sb b; struct comps c; int lit;
 	if (vh_chance(r, 1, 8)) gen_v6soup(r, &b);
+	else if (vh_chance(r, 1, 8)) { g_badport = 1; gen_uri(r, &b, &c, &lit, 0); g_badport = 0; comps_free(&c); }
 	else if (vh_chance(r, 1, 3)) gen_soup(r, &b);
 	else { gen_uri(r, &b, &c, &lit, vh_chance(r, 1, 4)); comps_free(&c); mutate(r, &b); }
 	check_input(b.s, NULL, 0);
